@@ -344,6 +344,21 @@ func (p *WPayload) SlotDesc(path []int) *WDesc {
 	return &p.Caps[s.CapIdx]
 }
 
+// SlotCapIdx returns the cap-table index the pointer at path refers to (-1 if
+// the path does not lead to an interface pointer).
+func (p *WPayload) SlotCapIdx(path []int) int {
+	d := p.SlotDesc(path)
+	if d == nil {
+		return -1
+	}
+	for i := range p.Caps {
+		if &p.Caps[i] == d {
+			return i
+		}
+	}
+	return -1
+}
+
 // Decode deep-copies an rpc.capnp message into a Go struct.
 func Decode(m rpccp.Message) *WireMsg {
 	out := &WireMsg{}
